@@ -6,6 +6,7 @@ import (
 	"context"
 	"encoding/json"
 	"fmt"
+	"regexp"
 	"runtime/debug"
 	"sort"
 	"unicode/utf8"
@@ -452,6 +453,8 @@ type judge struct {
 	// reported: violation classes already emitted for this case
 	reported map[string]bool
 	budget   int
+	// nullabilityOnlyConflict: see judgeRun (fact operation_invalid_only_by_nullability_conflict)
+	nullabilityOnlyConflict bool
 	// one-field attribution world (bundle schema), built on first use
 	mw         *world
 	mwErr      error
@@ -526,6 +529,15 @@ func (j *judge) judgeVariant(label string) (ok bool, subPos map[string]position)
 	j.res.Count("variables_json_checked", 1)
 	j.res.Count("request_bodies_checked", int64(br.bodies))
 	baseKeys := map[string]bool{}
+	// input fact for the matcher: the normalised / upstream operation of this run is invalid ONLY because one
+	// response name is selected as `X` and as `X!` (the root cause listed as C03-F8: hoisting `... on I { f }`
+	// out of `... on T` re-binds f to T.f); positions cannot be located in such an operation
+	j.nullabilityOnlyConflict = false
+	for _, f := range br.findings {
+		if (f.kind == "normalized-invalid" || f.kind == "subgraph-request-invalid") && nullabilityOnlyConflict(f.msg) {
+			j.nullabilityOnlyConflict = true
+		}
+	}
 	for _, f := range br.findings {
 		baseKeys[f.key()] = true
 		j.reportStructure(label, f, btext, bvars)
@@ -599,6 +611,23 @@ func canonOf(l *leaf, kind string) string {
 	return l.canonLiteral()
 }
 
+var reConflictTypes = regexp.MustCompile("conflicting types [\"']([^\"']+)[\"'] and [\"']([^\"']+)[\"']")
+
+// nullabilityOnlyConflict: every field-merge conflict the message names differs in `!` only, and the
+// message names at least one.
+func nullabilityOnlyConflict(msg string) bool {
+	ms := reConflictTypes.FindAllStringSubmatch(msg, -1)
+	if len(ms) == 0 {
+		return false
+	}
+	for _, m := range ms {
+		if strings.ReplaceAll(m[1], "!", "") != strings.ReplaceAll(m[2], "!", "") {
+			return false
+		}
+	}
+	return true
+}
+
 // reportStructure reports a finding that occurs with canonical spellings already: it is about the
 // structure of the value (null / absent / default / list / object), not about a spelling.
 func (j *judge) reportStructure(label string, f finding, text, vars string) {
@@ -608,6 +637,9 @@ func (j *judge) reportStructure(label string, f finding, text, vars string) {
 	}
 	j.reported[cls] = true
 	m := map[string]string{"origin": "structure", "variant": label}
+	if f.kind == "normalized-invalid" || f.kind == "subgraph-request-invalid" || f.kind == "subgraph-position-missing" {
+		m["operation_invalid_only_by_nullability_conflict"] = fmt.Sprint(j.nullabilityOnlyConflict)
+	}
 	if f.kind == "panic" {
 		m["panic"] = fmt.Sprint(f.detail["panic"])
 	}
